@@ -5,11 +5,10 @@
 (* every invariant on, and prints one REPLAY line (input + the spec's      *)
 (* outcome) per behaviour for the conformance harness.                     *)
 (***************************************************************************)
-EXTENDS Cgt, TLC, Json
+EXTENDS Cgt, CgtConst, TLC, Json
 
 CONSTANTS
   Timings,     \* admissible split-timing readings explored
-  DaySet,      \* selects the day-number sequence (DayNoOf)
   BuyQs,       \* quantities a buy cell may take (0 = no buy)
   SellQs,      \* quantities a sell cell may take (0 = no sell)
   QDen,        \* quantities are q / QDen (fractional shares when > 1)
@@ -20,21 +19,6 @@ CONSTANTS
   DistGrid,    \* granularity with which an event amount may be spread over acquisition days
   MaxCells,    \* at most this many non-empty buy/sell cells per security (0 = unlimited)
   Emit         \* TRUE: print a REPLAY line for every terminated behaviour
-
-DayNoOf(k) ==
-  CASE k = 1 -> <<0, 1, 2, 30, 31>>
-    [] k = 2 -> <<0, 1, 2, 3, 29, 30, 31, 32>>
-    [] k = 3 -> <<0, 1, 31, 32>>
-    [] k = 4 -> <<0, 10, 20, 30, 40, 50>>
-    [] k = 5 -> <<0, 1, 2, 3>>
-    [] k = 6 -> <<0, 29, 30, 31, 60, 61>>
-    [] k = 7 -> <<0, 1, 2>>
-    [] k = 8 -> <<0, 1, 2, 3, 4, 30, 31>>
-
-SecSeqA == <<"AAA">>
-SecSeqAB == <<"AAA", "BBB">>
-MC_DayNo == DayNoOf(DaySet)
-MC_N == Len(DayNoOf(DaySet))
 
 \* deterministic, pairwise distinct prices and fees per day slot, chosen so that
 \* disposals are gains, losses and exact zeros and so that a wrong lot shows
@@ -86,25 +70,20 @@ Compositions(k, n) ==    \* sequences of n naturals summing to k
 
 ZeroDist == [e \in 1..MC_N |-> [a \in 1..MC_N |-> Zero]]
 
-\* choices for one security's pre-pass result, given its cells
-DistChoicesFor(cells) ==
-  LET evDays == {e \in 1..MC_N : ~IsZero(cells[e].ac) \/ ~IsZero(cells[e].cr)}
-      net(e) == Sub(cells[e].ac, Sub(cells[e].cr, cells[e].crf))
-      elig(e) == {a \in 1..MC_N : a <= e /\ IsPos(cells[a].bq)}
-      choicesAt(e) ==
-        LET el == elig(e)
-            n == Cardinality(el)
-            ord == CHOOSE f \in [1..n -> el] : \A i, j \in 1..n : i < j => f[i] < f[j]
-        IN {[a \in 1..MC_N |-> Zero]} \cup
-           {[a \in 1..MC_N |->
-               IF a \in el
-               THEN Mul(net(e), Norm(comp[CHOOSE i \in 1..n : ord[i] = a], DistGrid))
-               ELSE Zero] : comp \in Compositions(DistGrid, n)}
+\* choices for how day e's net cost event of security s may be spread: nothing (when the
+\* event is ignored), or the net amount in DistGrid-ths over the acquisition days up to e
+EligibleDays(s, e) == {a \in 1..MC_N : a <= e /\ IsPos(L[s][a].bq)}
+RowChoices(s, e) ==
+  LET el == EligibleDays(s, e)
+      n == Cardinality(el)
+      ord == CHOOSE f \in [1..n -> el] : \A i, j \in 1..n : i < j => f[i] < f[j]
       zeroRow == [a \in 1..MC_N |-> Zero]
-      rows == {zeroRow} \cup UNION {choicesAt(e) : e \in evDays}
-  IN IF evDays = {} THEN {ZeroDist}
-     ELSE {dd \in [1..MC_N -> rows] :
-             \A e \in 1..MC_N : dd[e] \in (IF e \in evDays THEN choicesAt(e) ELSE {zeroRow})}
+  IN {zeroRow} \cup
+     {[a \in 1..MC_N |->
+         IF a \in el
+         THEN Mul(EventNet(s, e), Norm(comp[CHOOSE i \in 1..n : ord[i] = a], DistGrid))
+         ELSE Zero] : comp \in Compositions(DistGrid, n)}
+EventPairs == {p \in Secs \X (1..MC_N) : HasEvent(p[1], p[2])}
 
 (* Generator: the ledger is built cell by cell (so TLC's workers share the   *)
 (* enumeration), then the cost pre-pass picks an admissible apportionment,  *)
@@ -139,12 +118,20 @@ GenCell ==
 \* matcher/mod.rs compute_cost_offsets: the whole-timeline pre-pass (named deviation)
 PrePass ==
   /\ pc = "prepass"
-  /\ UNCHANGED <<L, timing, day, si, pool, claimed, hold, rem, legs, err>>
-  /\ \E dd \in [Secs -> UNION {DistChoicesFor(L[s]) : s \in Secs}] :
-       /\ \A s \in Secs : dd[s] \in DistChoicesFor(L[s])
-       /\ dist' = dd
-  /\ ValidDist'
-  /\ pc' = EnterPc(1, 1)
+  /\ UNCHANGED <<L, timing, day, si, pool, claimed, hold, rem, legs>>
+  /\ IF MustRefuse
+     THEN /\ pc' = "refused"
+          /\ err' = (CHOOSE p \in Secs \X Days : MustRefuseAt(p[1], p[2]))
+          /\ UNCHANGED dist
+     ELSE /\ \E ch \in [EventPairs -> UNION {RowChoices(p[1], p[2]) : p \in EventPairs}] :
+               LET dd == [s \in Secs |-> [e \in 1..MC_N |->
+                             IF <<s, e>> \in EventPairs THEN ch[<<s, e>>] ELSE [a \in 1..MC_N |-> Zero]]]
+               IN /\ \A p \in EventPairs : ch[p] \in RowChoices(p[1], p[2])
+                  /\ ValidDistOf(dd)
+                  /\ NonNegDistOf(dd)
+                  /\ dist' = dd
+          /\ pc' = EnterPc(1, 1)
+          /\ UNCHANGED err
 
 MCNext == GenCell \/ PrePass \/ Next
 MCSpec == MCInit /\ [][MCNext]_vars
@@ -159,7 +146,7 @@ Outcome ==
   [days |-> MC_DayNo, secs |-> SecSeq, timing |-> timing,
    ledger |-> [i \in 1..Len(SecSeq) |-> [d \in 1..MC_N |-> CellArr(L[SecSeq[i]][d])]],
    dist |-> IF HasDist THEN [i \in 1..Len(SecSeq) |-> dist[SecSeq[i]]] ELSE <<>>,
-   status |-> IF pc = "done" THEN "ok" ELSE "error",
+   status |-> IF pc = "done" THEN "ok" ELSE IF pc = "refused" THEN "refused" ELSE "error",
    err |-> err,
    uncovered |-> IF pc = "failed"
                  THEN {s \in Secs : ~CoveredAt(s, err[2])} ELSE {},
